@@ -108,7 +108,7 @@ def replay_file(R, path):
 def main():
     ap = argparse.ArgumentParser()
     ap.add_argument('prop'); ap.add_argument('--tier', default=os.environ.get('VERIF_TIER', 'quick'))
-    ap.add_argument('--replay'); ap.add_argument('--only'); ap.add_argument('--keep', action='store_true'); ap.add_argument('-j', type=int, default=16)
+    ap.add_argument('--replay'); ap.add_argument('--only'); ap.add_argument('--keep', action='store_true'); ap.add_argument('-j', type=int, default=9)
     ap.add_argument('--list', action='store_true')
     a = ap.parse_args()
     seed = int(os.environ.get('VERIF_SEED', '0') or 0)
